@@ -6,7 +6,7 @@
 ID="$1"; SEED="${2:-0}"
 HERE="$(cd "$(dirname "$0")/.." && pwd)"
 export RUSTUP_TOOLCHAIN=stable-x86_64-unknown-linux-gnu CARGO_NET_OFFLINE=true CARGO_TERM_COLOR=never
-RUNS="${VERIF_FUZZ_RUNS:-20000}"
+RUNS="${VERIF_FUZZ_RUNS:-4000}"
 cd "$HERE/fuzz" || exit 0
 [ -f Cargo.lock ] || cp "$HERE/harness/Cargo.lock" Cargo.lock
 log="$(mktemp)"
